@@ -679,7 +679,7 @@ int disasm_68000(
           mode = (opcode >> 6) & 0x7;
           size = mode & 0x3;
           len = get_ea_68000(memory, address, ea, sizeof(ea), opcode, 0, size);
-          snprintf(instruction, length, "%s.%c %s, d%d", table_68000[n].instr, sizes[size], ea, reg);
+          snprintf(instruction, length, "%s.%c d%d, %s", table_68000[n].instr, sizes[size], reg, ea);
           return len;
         default:
           strcpy(instruction, "???");
